@@ -51,10 +51,10 @@ func init() {
 		Families: func(c *mon.Config) []mon.Family {
 			return []mon.Family{
 				{Name: "one-two-byte", N: 4 * 257, Run: c08Enum},
-				{Name: "random-strings", N: c.Pick(4000, 200000), Run: c08Random},
-				{Name: "tostr-lengths", N: 4 * 18 * c.Pick(4, 200), Run: c08ToStr},
-				{Name: "firstdiff", N: c.Pick(3000, 100000), Run: c08FirstDiff},
-				{Name: "strs", N: c.Pick(1000, 40000), Run: c08Strs},
+				{Name: "random-strings", N: c.Pick(20000, 4000000), Run: c08Random},
+				{Name: "tostr-lengths", N: 4 * 18 * c.Pick(20, 5000), Run: c08ToStr},
+				{Name: "firstdiff", N: c.Pick(10000, 2000000), Run: c08FirstDiff},
+				{Name: "strs", N: c.Pick(5000, 1000000), Run: c08Strs},
 			}
 		},
 	})
